@@ -35,7 +35,7 @@ def schema_report(db):
             'm2m': bool(t.m2m),
             'entities': sorted(e.__name__ for e in t.entities),
         }
-    return {'tables': tables, 'names': sorted(tname(n) for n in sch.names), 'order': [tname(t.name) for t in sch.order_tables_to_create()],
+    return {'tables': tables, 'names': [tname(n) for n in sch.names], 'order': [tname(t.name) for t in sch.order_tables_to_create()],
             'ddl': sch.generate_create_script()}
 
 
@@ -102,6 +102,9 @@ def run_case(case):
         except Exception as e:
             name = type(e).__name__
             out['error'] = [name, str(e)[:300]]
+            import traceback
+            tb = [f for f in traceback.extract_tb(e.__traceback__) if '/pony/' in f.filename]
+            out['where'] = '%s.%s' % (tb[-1].filename.split('/')[-1][:-3], tb[-1].name) if tb else None
             if name in PONY_REJECTIONS and not isinstance(e, AssertionError): out['outcome'] = 'rejected'
             elif isinstance(e, AssertionError) or name in ('KeyError', 'IndexError'): out['outcome'] = 'crash'
             else: out['outcome'] = 'backend-error'
